@@ -2,7 +2,9 @@ package rules
 
 import (
 	"fmt"
+	"go/constant"
 	"go/token"
+	"go/types"
 	"sort"
 	"strings"
 
@@ -147,6 +149,125 @@ func c02Trie(c *core.Ctx, rule string) {
 	}
 	c.Check(nLink >= 1 && okParent, rule, "subscribe|parent-link", pos, "a new node's parent is the node it is linked under", "a new trie node is created by another node than the one whose children map it is stored in: its parent pointer is wrong and pruning unlinks an unrelated subtree")
 
+	// (d) every (re-)subscription replaces what is stored: under "non-shared" every path through subscribe
+	// writes node.clients[client], under "shared" it writes node.shared[group][client]
+	{
+		tests := stringNonEmptyTests(sub, "gmqtt.Subscription.ShareName")
+		isFill := func(want string) func(ssa.Instruction) bool {
+			return func(in ssa.Instruction) bool {
+				mu, ok := in.(*ssa.MapUpdate)
+				if !ok || ssax.TypeName(mu.Value.Type()) != "gmqtt.Subscription" || nodeContainerOf(mu.Map) != want {
+					return false
+				}
+				// the value stored is the subscription being made (the parameter), not what was there
+				return ssax.AnyIn(ssax.Backward(mu.Value), func(v ssa.Value) bool { _, isP := v.(*ssa.Parameter); return isP })
+			}
+		}
+		if len(tests) == 0 {
+			c.Undecidedf(rule, "subscribe|share-test", fpos(c, sub), "topicTrie.subscribe does not test the share name")
+		} else {
+			for _, sc := range []struct {
+				name, want string
+				pins       map[ssa.Value]ssax.AV
+			}{{"non-shared", "clients", negate(tests)}, {"shared", "shared", tests}} {
+				r := ssax.Analyze(sub, ssax.ReachOpts{Pins: sc.pins})
+				in, skipped := (ssax.PathQuery{Fn: sub, To: ssax.IsReturn, Avoid: isFill(sc.want), Feasible: r}).Find()
+				pos := fpos(c, sub)
+				if skipped {
+					pos = ipos(c, in)
+				}
+				c.Check(!skipped, rule, "subscribe|always-stores|"+sc.name, pos, "a "+sc.name+" (re-)subscription always replaces the stored one", "topicTrie.subscribe can return without storing the new "+sc.name+" subscription (e.g. it keeps the old instance when it believes nothing changed): a re-subscription with a new subscription identifier or new options keeps the old ones")
+			}
+		}
+	}
+
+	// (e) UNSUBSCRIBE removes the client from exactly the container its filter selects: from node.clients for a
+	// plain filter, from node.shared[that group] for a shared one
+	{
+		pins := map[ssa.Value]ssax.AV{} // value when the share name is non-empty
+		ssax.Instrs(unsub, false, func(_ *ssa.Function, in ssa.Instruction) {
+			bo, ok := in.(*ssa.BinOp)
+			if !ok || (bo.Op != token.EQL && bo.Op != token.NEQ) {
+				return
+			}
+			x, y := bo.X, bo.Y
+			if _, isC := x.(*ssa.Const); isC {
+				x, y = y, x
+			}
+			cst, isC := y.(*ssa.Const)
+			prm, isP := x.(*ssa.Parameter)
+			if !isC || !isP || cst.Value == nil || cst.Value.Kind() != constant.String || constant.StringVal(cst.Value) != "" || prm.Name() != "shareName" {
+				return
+			}
+			pins[bo] = ssax.AVFalse
+			if bo.Op == token.NEQ {
+				pins[bo] = ssax.AVTrue
+			}
+		})
+		if len(pins) == 0 {
+			c.Undecidedf(rule, "unsubscribe|share-test", fpos(c, unsub), "topicTrie.unsubscribe does not test its shareName parameter")
+		} else {
+			rShared := ssax.Analyze(unsub, ssax.ReachOpts{Pins: pins})
+			rPlain := ssax.Analyze(unsub, ssax.ReachOpts{Pins: negate(pins)})
+			for i, d := range ssax.Calls(unsub, false, ssax.ByName("builtin:delete")) {
+				m := rawArgs(d.Instr)[0]
+				if directNodeField(m) == "children" {
+					continue
+				}
+				key := fmt.Sprintf("unsubscribe|scope#%d", i)
+				switch nodeContainerOf(m) {
+				case "clients":
+					c.Check(!rShared.Reachable(d.Instr), rule, key+"|clients-only-for-plain", ipos(c, d.Instr), "node.clients is touched only for a plain filter", "unsubscribing a shared filter also removes the client's plain subscription on the same filter")
+				case "shared":
+					c.Check(!rPlain.Reachable(d.Instr), rule, key+"|shared-only-for-shared", ipos(c, d.Instr), "node.shared is touched only for a shared filter", "unsubscribing a plain filter also removes the client from share groups on the same filter")
+					// the group is the one named in the request, not every group of the node
+					ranged := ssax.AnyIn(ssax.Backward(m), func(v ssa.Value) bool { _, isN := v.(*ssa.Next); return isN })
+					c.Check(!ranged, rule, key+"|only-the-named-group", ipos(c, d.Instr), "only the group named in the UNSUBSCRIBE is left", "unsubscribing $share/<group>/<filter> removes the client from every share group on that filter, not only from <group>")
+				}
+			}
+		}
+	}
+
+	// (f) a share group disappears only when its last member has been removed: the deletion of
+	// node.shared[group] is guarded by len(group) == 0 and follows the removal of the leaver from that group
+	for _, f := range []*ssa.Function{unsub, unall} {
+		for i, d := range ssax.Calls(f, false, ssax.ByName("builtin:delete")) {
+			m := rawArgs(d.Instr)[0]
+			if directNodeField(m) != "shared" {
+				continue
+			}
+			if _, isOuter := ssax.Deref(m.Type()).Underlying().(*types.Map); !isOuter {
+				continue
+			}
+			if mt := m.Type().Underlying().(*types.Map); ssax.TypeName(mt.Elem()) == "gmqtt.Subscription" {
+				continue // the inner map (client -> subscription)
+			}
+			okEmpty := false
+			for _, g := range ssax.Guards(d.Instr) {
+				bo, ok := g.Cond.(*ssa.BinOp)
+				if !ok {
+					continue
+				}
+				k, isC := constInt(bo.Y)
+				call, isCall := bo.X.(*ssa.Call)
+				if !isC || !isCall || k != 0 || cmpUnder(bo, g.Branch) != token.EQL {
+					continue
+				}
+				if b, isB := call.Call.Value.(*ssa.Builtin); isB && b.Name() == "len" && directNodeField(call.Call.Args[0]) == "shared" {
+					okEmpty = true
+				}
+			}
+			removedFirst := false
+			for _, d2 := range ssax.Calls(f, false, ssax.ByName("builtin:delete")) {
+				m2 := rawArgs(d2.Instr)[0]
+				if mt, ok := m2.Type().Underlying().(*types.Map); ok && directNodeField(m2) == "shared" && ssax.TypeName(mt.Elem()) == "gmqtt.Subscription" && ssax.Dominates(d2.Instr, d.Instr) {
+					removedFirst = true
+				}
+			}
+			c.Check(okEmpty && removedFirst, rule, fmt.Sprintf("%s|group-dropped-only-when-empty#%d", f.Name(), i), ipos(c, d.Instr), "a share group is dropped only after its last member left", "a share group is deleted although it may still have a member other than the leaving client (the test is not 'len(group) == 0' after removing the leaver): the remaining member silently stops receiving")
+		}
+	}
+
 	// (b)+(c) removal paths
 	for _, f := range []*ssa.Function{unsub, unall} {
 		name := f.Name()
@@ -262,6 +383,23 @@ func c02(c *core.Ctx) {
 		what string
 	}{{sl, token.ADD, false, "incremented only when the index key was absent"}, {ul, token.SUB, true, "decremented only when the index key was present"}} {
 		n := 0
+		// the key under which the per-client index entry is written / deleted in this function
+		var idxKeys []ssa.Value
+		ssax.Instrs(x.f, false, func(_ *ssa.Function, in ssa.Instruction) {
+			inner := func(m ssa.Value) bool {
+				return ssax.AnyIn(ssax.Backward(m), func(v ssa.Value) bool { _, isL := v.(*ssa.Lookup); return isL })
+			}
+			switch y := in.(type) {
+			case *ssa.MapUpdate:
+				if inner(y.Map) {
+					idxKeys = append(idxKeys, y.Key)
+				}
+			case *ssa.Call:
+				if b, isB := y.Call.Value.(*ssa.Builtin); isB && b.Name() == "delete" && inner(y.Call.Args[0]) {
+					idxKeys = append(idxKeys, y.Call.Args[1])
+				}
+			}
+		})
 		ssax.Instrs(x.f, false, func(_ *ssa.Function, in ssa.Instruction) {
 			st, ok := in.(*ssa.Store)
 			if !ok {
@@ -283,7 +421,13 @@ func c02(c *core.Ctx) {
 					continue
 				}
 				if lk, isLk := ex.Tuple.(*ssa.Lookup); isLk && lk.CommaOk && g.Branch == x.want {
-					okG = true
+					// the test must be on the very key that is written / deleted (index[client][key]), not merely
+					// on the client having an index at all
+					for _, k := range idxKeys {
+						if lk.Index == k || ssax.SameExpr(lk.Index, k) {
+							okG = true
+						}
+					}
 				}
 			}
 			c.Check(okG, "C02.R2", fmt.Sprintf("%s|current-guard#%d", x.f.Name(), n), ipos(c, st), "SubscriptionsCurrent "+x.what, "SubscriptionsCurrent is not "+x.what+": re-subscribing or unsubscribing an unknown filter skews the count")
